@@ -9,14 +9,14 @@ StateView == <<queued, tree, known, store, bad, cache, pending, faults>>
 End == [op |-> "End"]
 Finish == Len(hist) = Depth /\ hist' = Append(hist, End)
           /\ UNCHANGED <<queued, tree, known, store, bad, cache, pending, faults, last>>
-ExportFinished == (Len(hist) = Depth + 1) => PrintT(<<"BEH", ToJson([cap |-> IF NoCache THEN -1 ELSE Cap, steps |-> SubSeq(hist, 1, Depth),
+ExportFinished == (Len(hist) = Depth + 1) => PrintT(<<"BEH", ToJson([cap |-> IF NoCache THEN -1 ELSE Cap, dialect |-> Dialect, steps |-> SubSeq(hist, 1, Depth),
                                                                    cold |-> [i \in 1..Len(tree) |-> ServableCold(i)]])>>)
 SimNext ==
   \/ Finish
   \/ /\ Len(hist) < Depth
      /\ \E kind \in {RandomElement(1..20)} :
         CASE kind \in 1..5 -> \E c \in {RandomElement(Certs)} : Submit(c, "none")
-          [] kind = 6 -> \E c \in {RandomElement(Certs)} : Submit(c, "addError") \/ Submit(c, "none")
+          [] kind = 6 -> \E c \in {RandomElement(Certs)}, f \in {RandomElement(AddFaults)} : Submit(c, f) \/ Submit(c, "none")
           [] kind \in 7..8 -> IF Len(queued) > 0 /\ Len(tree) < MaxTree
                               THEN \E k \in {RandomElement(1..(IF Len(queued) < MaxTree - Len(tree) THEN Len(queued) ELSE MaxTree - Len(tree)))} : Sequence(k)
                               ELSE \E c \in {RandomElement(Certs)} : Submit(c, "none")
@@ -27,8 +27,8 @@ SimNext ==
                                 THEN \E i \in {RandomElement(1..Len(tree))}, v \in {RandomElement({"entries", "proof"})} :
                                         IF Len(tree) > 1 /\ RandomElement(1..3) = 1
                                         THEN \E a \in {RandomElement(1..Len(tree) - 1)} : \E b \in {RandomElement(a + 1..Len(tree))} :
-                                                IF RandomElement(1..3) = 1 THEN (ReadRange(a, b, "findError") \/ ReadRange(a, b, "none")) ELSE ReadRange(a, b, "none")
-                                        ELSE IF RandomElement(1..6) = 1 THEN (Read(i, v, "findError") \/ Read(i, v, "none")) ELSE Read(i, v, "none")
+                                                IF RandomElement(1..3) = 1 THEN \E f \in {RandomElement(FindFaults)} : (ReadRange(a, b, f) \/ ReadRange(a, b, "none")) ELSE ReadRange(a, b, "none")
+                                        ELSE IF RandomElement(1..6) = 1 THEN \E f \in {RandomElement(FindFaults)} : (Read(i, v, f) \/ Read(i, v, "none")) ELSE Read(i, v, "none")
                                 ELSE \E c \in {RandomElement(Certs)} : Submit(c, "none")
           [] kind \in 16..18 -> IF Len(pending) > 0 THEN CacheSetFires ELSE \E c \in {RandomElement(Certs)} : Submit(c, "none")
           [] kind = 19 -> IF faults < MaxFaults /\ RandomElement(1..2) = 1 THEN Restart
